@@ -44,6 +44,29 @@ MAX_FAILING = 25      # failing histories processed per run (the witnesses come 
 # (k=1 / k=10 / k=11, j=a / j=ab / j=abc): directory names of different partitions then share a prefix
 KPOOLS = [[0, 1, 2], [1, 10, 11, 2, 21], [1, 10]]
 JPOOLS = [["a", "b"], ["a", "ab", "abc", "b"], ["a", "ab"]]
+# every KIND of value the writer can put into a directory name (util.path_string): overwrite matches partitions on these texts.
+# (kind, pool); timestamps are kept as ISO texts in the history and turned into pd.Timestamp when the frame is built
+KIND_POOLS = {
+    "k": [("int", p) for p in KPOOLS] + [("float", [1.0, 2.0, 2.5, -0.0, 1e16]), ("float", [2.0, 20.0]), ("bool", [True, False]),
+                                         ("ts", ["2020-01-01T00:00:00", "2020-01-02T03:04:05", "2020-01-01T00:00:01"]),
+                                         ("bigint", [2 ** 53 + 1, 2 ** 53 + 3, 7])],
+    "j": [("str", p) for p in JPOOLS] + [("str", ["a b", "\u00e9", "x"]), ("float", [1.0, 10.0, 2.5]),
+                                         ("ts", ["2021-03-04T00:00:00", "2021-03-04T05:06:07"])],
+}
+DEFAULT_PTYPES = {"k": "int", "j": "str"}
+
+
+def dir_text(kind, v):
+    """the text the writer puts into a directory name for a partition value: the library's OWN util.path_string on the value as
+    pandas' groupby yields it (glue; a change of the formatting alone is not this property's business, a writer/overwrite
+    disagreement about it is - the model then predicts a replacement that does not happen)"""
+    import numpy as np
+    import pandas as pd
+    from fastparquet.util import path_string
+    if kind == "ts":
+        return path_string(pd.Timestamp(v))
+    cast = {"float": np.float64, "bool": np.bool_, "int": np.int64, "bigint": np.int64}.get(kind)
+    return path_string(cast(v) if cast else v)
 
 
 def gen_frame(rng, pcols, n, next_id, kvals=None, jvals=None):
@@ -78,8 +101,8 @@ def gen_history(rng, hid, maxlen=6):
         pcols = ["j", "k"]
     nid = 0
     n = rng.choice([1, 2, 4, 6, 8])
-    kpool = rng.choice(KPOOLS)
-    jpool = rng.choice(JPOOLS)
+    kkind, kpool = rng.choice(KIND_POOLS["k"][:3] * 2 + KIND_POOLS["k"][3:])
+    jkind, jpool = rng.choice(KIND_POOLS["j"][:3] * 2 + KIND_POOLS["j"][3:])
     ops = [{"op": "write", "frame": gen_frame(rng, pcols, n, nid, kpool, jpool), "offsets": None}]
     ops[0]["offsets"] = offsets(rng, n)
     nid += n
@@ -97,7 +120,22 @@ def gen_history(rng, hid, maxlen=6):
             o["sort_key"] = rng.choice(SORT_KEYS)
             o["sort_pnames"] = rng.random() < 0.5
         ops.append(o)
-    return {"id": hid, "pcols": pcols, "ops": ops}
+    return {"id": hid, "pcols": pcols, "ptypes": {"k": kkind, "j": jkind}, "ops": ops}
+
+
+def kind_witnesses():
+    """one value kind each: overwrite one partition of a dataset partitioned on a float / bool / timestamp / big-int column"""
+    out = []
+    for n, (kind, vals) in enumerate([("float", [1.0, 2.0, 2.5, 2.0]), ("float", [-0.0, 1e16, 2.5, 1e16]), ("bool", [True, False, True]),
+                                      ("ts", ["2020-01-01T00:00:00", "2020-01-02T03:04:05", "2020-01-01T00:00:00"]),
+                                      ("bigint", [2 ** 53 + 1, 2 ** 53 + 3, 2 ** 53 + 1])]):
+        fr0 = [{"x": i, "y": 0.5, "k": v, "j": "a"} for i, v in enumerate(vals)]
+        fr1 = [{"x": 100, "y": 0.5, "k": vals[1], "j": "a"}]
+        fr2 = [{"x": 101, "y": 0.5, "k": vals[0], "j": "a"}, {"x": 102, "y": 0.5, "k": vals[0], "j": "a"}]
+        out.append({"id": 900021 + n, "pcols": ["k"], "ptypes": {"k": kind, "j": "str"}, "ops": [
+            {"op": "write", "frame": fr0, "offsets": [0, 2]}, {"op": "overwrite", "frame": fr1, "offsets": [0]},
+            {"op": "overwrite", "frame": fr2, "offsets": [0, 1]}]})
+    return out
 
 
 def design_witness():
@@ -141,8 +179,9 @@ def emptied_history(pcols, hid):
 # ---------------------------------------------------------------------------------------------
 # glue: new data cut the way write_multi cuts it
 # ---------------------------------------------------------------------------------------------
-def cut(frame, offs, pcols):
+def cut(frame, offs, pcols, ptypes=None):
     """[[(dir, [ids])...] per row group]; directories in the order of pandas' sorted groupby keys."""
+    pt = ptypes or DEFAULT_PTYPES
     n = len(frame)
     out = []
     for i, start in enumerate(offs):
@@ -152,7 +191,7 @@ def cut(frame, offs, pcols):
             keys = sorted(set(tuple(r[c] for c in pcols) for r in sub))
             g = []
             for key in keys:
-                d = "/".join("%s=%s" % (c, v) for c, v in zip(pcols, key))
+                d = "/".join("%s=%s" % (c, dir_text(pt[c], v)) for c, v in zip(pcols, key))
                 g.append([d, [r["x"] for r in sub if tuple(r[c] for c in pcols) == key]])
             out.append(g)
         else:
@@ -171,7 +210,7 @@ def model_ops(h, resolved):
         if o["op"] == "remove":
             out.append(["remove", list(sel if sel is not None else []), 1 if o["sort_pnames"] else 0])
             continue
-        rgs = sx_rgs(cut(o["frame"], o["offsets"], h["pcols"]))
+        rgs = sx_rgs(cut(o["frame"], o["offsets"], h["pcols"], h.get("ptypes")))
         if o["op"] == "writergs":
             out.append(["writergs", rgs, o["sort_key"], 1 if o["sort_pnames"] else 0])
         else:
@@ -182,12 +221,24 @@ def model_ops(h, resolved):
 # ---------------------------------------------------------------------------------------------
 # the real code (worker process)
 # ---------------------------------------------------------------------------------------------
-def to_df(frame, pcols):
+def to_df(frame, pcols, ptypes=None):
     import numpy as np
     import pandas as pd
+    pt = ptypes or DEFAULT_PTYPES
     d = {"x": np.array([r["x"] for r in frame], dtype="int64"), "y": np.array([r["y"] for r in frame], dtype="float64")}
     for c in pcols:
-        d[c] = np.array([r[c] for r in frame], dtype="int64") if c == "k" else pd.Series([r[c] for r in frame], dtype=object)
+        vals = [r[c] for r in frame]
+        kind = pt[c]
+        if kind in ("int", "bigint"):
+            d[c] = np.array(vals, dtype="int64")
+        elif kind == "float":
+            d[c] = np.array(vals, dtype="float64")
+        elif kind == "bool":
+            d[c] = np.array(vals, dtype="bool")
+        elif kind == "ts":
+            d[c] = pd.Series([pd.Timestamp(v) for v in vals])
+        else:
+            d[c] = pd.Series(vals, dtype=object)
     return pd.DataFrame(d)
 
 
@@ -258,11 +309,11 @@ def run_history(arg):
             sel = None
             try:
                 if o["op"] == "write":
-                    write(root, to_df(o["frame"], pcols), file_scheme="hive", partition_on=list(pcols), row_group_offsets=list(o["offsets"]))
+                    write(root, to_df(o["frame"], pcols, h.get("ptypes")), file_scheme="hive", partition_on=list(pcols), row_group_offsets=list(o["offsets"]))
                 elif o["op"] == "append":
-                    write(root, to_df(o["frame"], pcols), file_scheme="hive", partition_on=list(pcols), row_group_offsets=list(o["offsets"]), append=True)
+                    write(root, to_df(o["frame"], pcols, h.get("ptypes")), file_scheme="hive", partition_on=list(pcols), row_group_offsets=list(o["offsets"]), append=True)
                 elif o["op"] == "overwrite":
-                    write(root, to_df(o["frame"], pcols), file_scheme="hive", partition_on=list(pcols), row_group_offsets=list(o["offsets"]),
+                    write(root, to_df(o["frame"], pcols, h.get("ptypes")), file_scheme="hive", partition_on=list(pcols), row_group_offsets=list(o["offsets"]),
                           append="overwrite")
                 elif o["op"] == "remove":
                     pf = ParquetFile(root)
@@ -271,7 +322,7 @@ def run_history(arg):
                     pf.remove_row_groups([pf.row_groups[i] for i in sel], sort_pnames=o["sort_pnames"])
                 elif o["op"] == "writergs":
                     pf = ParquetFile(root)
-                    pf.write_row_groups(to_df(o["frame"], pcols), list(o["offsets"]), sort_key=sort_key_fn(o["sort_key"]),
+                    pf.write_row_groups(to_df(o["frame"], pcols, h.get("ptypes")), list(o["offsets"]), sort_key=sort_key_fn(o["sort_key"]),
                                         sort_pnames=o["sort_pnames"])
             except BaseException as e:           # noqa
                 raised = "%s: %s" % (type(e).__name__, str(e)[:160].replace("\n", " "))
@@ -352,7 +403,7 @@ def run(ctx):
                 "partition values are drawn per history from pools of which two hold prefix-related texts (k in 1/10/11/2/21, j in a/ab/abc/b) and every new frame "
                 "from the whole pool, one value only, or a random subset; plus the DESIGN witness history, 3 prefix-value witness histories and 2 confirmation "
                 "histories for the open finding (dataset emptied, then append)")
-    hs = [design_witness(), emptied_history(["k"], 900002), emptied_history([], 900003)] + prefix_witnesses() + [gen_history(rng, i) for i in range(nh)]
+    hs = [design_witness(), emptied_history(["k"], 900002), emptied_history([], 900003)] + prefix_witnesses() + kind_witnesses() + [gen_history(rng, i) for i in range(nh)]
     cdir = os.path.join(C.VERIF, "corpus", "C09")
     if os.path.isdir(cdir):
         for i, f in enumerate(sorted(os.listdir(cdir))):
@@ -365,14 +416,14 @@ def run(ctx):
     # report it as a failing input - the dataset cannot be read back at all
     crashed = [(h, r) for h, r in zip(hs, results) if isinstance(r, dict) and "__crashed__" in r]
     for h, r in crashed[:5]:
-        pre = [{"id": h["id"] * 10 + n, "pcols": h["pcols"], "ops": h["ops"][:n]} for n in range(1, len(h["ops"]) + 1)]
+        pre = [{"id": h["id"] * 10 + n, "pcols": h["pcols"], "ptypes": h.get("ptypes"), "ops": h["ops"][:n]} for n in range(1, len(h["ops"]) + 1)]
         rr = C.pmap(run_history, [(x, ctx.scratch) for x in pre], nproc=4, job_timeout=30)
         bad = [x for x, y in zip(pre, rr) if isinstance(y, dict) and "__crashed__" in y]
         hh = bad[0] if bad else h
         o = hh["ops"][-1]
         ctx.fail({"component": "dataset-edit", "symptom": "process-crashed-or-hung", "op": o["op"], "partitioned": bool(h["pcols"]),
                   "emptied_before": False, "sort_pnames": bool(o.get("sort_pnames") or o["op"] == "overwrite")},
-                 {"history": {"id": h["id"], "pcols": h["pcols"], "ops": hh["ops"]}, "step": len(hh["ops"]) - 1, "observed": r["__crashed__"]},
+                 {"history": {"id": h["id"], "pcols": h["pcols"], "ptypes": h.get("ptypes"), "ops": hh["ops"]}, "step": len(hh["ops"]) - 1, "observed": r["__crashed__"]},
                  "running / observing this history kills or hangs the process: %s" % r["__crashed__"])
     if len(crashed) > 5:
         ctx.notes.append("%d histories crashed the worker process; 5 reported" % len(crashed))
@@ -399,13 +450,14 @@ def run(ctx):
             continue
         ctx.count("partition_columns", len(h["pcols"]))
         ctx.count("history_length", len(h["ops"]))
+        ctx.count("partition_value_kinds", "/".join((h.get("ptypes") or DEFAULT_PTYPES)[c] for c in h["pcols"]) or "-")
         if not isinstance(mo, list) or len(mo) != len(h["ops"]):
             ctx.correspondence("edit_hist answers one record per step", {"history": h["id"]}, len(h["ops"]), mo)
             continue
         for si, (o, obs, m) in enumerate(zip(h["ops"], res["steps"], mo)):
             acc, mdir, msum, mnum, minv, mread, mabs, mspec = m
             short = {"history": h["id"], "step": si, "op": o["op"], "pcols": h["pcols"], "sort_pnames": o.get("sort_pnames"), "sort_key": o.get("sort_key")}
-            case = {"history": {"id": h["id"], "pcols": h["pcols"], "ops": h["ops"][:si + 1]}, "step": si}
+            case = {"history": {"id": h["id"], "pcols": h["pcols"], "ptypes": h.get("ptypes"), "ops": h["ops"][:si + 1]}, "step": si}
             ctx.case({"h": h["ops"][:si + 1], "p": h["pcols"]}, trivial=si == 0)
             ctx.count("op", o["op"] + ("/sort_pnames" if o.get("sort_pnames") else ""))
             ctx.count("row_groups_after", min(len(msum), 12))
